@@ -680,6 +680,8 @@ def discharge(w, S, R, fn, impl, has_self, l, r, ty, gs, helper):
     def guard_ge(a, bnd):
         """some controlling guard implies a >= bnd (bnd term or int)"""
         for c, v in gs:
+            if c == a and isinstance(v, tuple) and v and v[0] == "not" and 0 in v[1] and isinstance(bnd, int) and bnd <= 1:
+                return True              # integer switch: the value is not 0 on this path
             if c[0] != "binop":
                 # !is_empty(container) => len(container) >= 1
                 if c[0] == "call" and c[1].endswith("::is_empty") and v is False and isinstance(bnd, int) and bnd <= 1 and a[0] == "call" and a[1].endswith("::len") \
